@@ -261,3 +261,67 @@ func H_C13_NoPadAndSafe() {
 		}
 	}
 }
+
+// H_C13_LongPadding: malformed padding far from the start: a valid prefix of L characters (every multiple of the
+// group size up to 1400, thorough 4800 -- past the internal chunk sizes of any buffered decoder), then one group
+// whose last two (base32: last) characters are arbitrary (CR/LF excluded), then one more valid group.  A '=' there is
+// padding followed by more data and has to be rejected by the plain and the size-guarded decoders alike, which also
+// agree with each other.
+//
+//verif:props C13 C04
+//verif:witness pad-rejected accepted
+//verif:policies runtime
+//verif:loopcap 20000
+//verif:fanout 400
+func H_C13_LongPadding() {
+	maxL := 1400
+	if nd.Thorough() {
+		maxL = 4800
+	}
+	if nd.Bool() {
+		L := 4 * nd.IntRange(0, maxL/4)
+		x, y := nd.Byte(), nd.Byte()
+		nd.Assume(x != '\r' && x != '\n' && y != '\r' && y != '\n')
+		buf := make([]byte, 0, L+8)
+		for i := 0; i < L; i += 4 {
+			buf = append(buf, '-', '~', '~', '-')
+		}
+		buf = append(buf, '~', 'w', x, y, 'Q', 'U', 'F', 'B')
+		s := string(buf)
+		a, aerr := base64.DecodeString(s)
+		b, berr := base64.DecodeStringSafe(s)
+		nd.Assert((aerr == nil) == (berr == nil), "b64long/safe-agrees-on-acceptance")
+		if aerr == nil && berr == nil {
+			nd.Assert(bytes.Equal(a, b), "b64long/safe-agrees-on-result")
+			nd.Cover("accepted")
+		}
+		if nd.Or(x == '=', y == '=') {
+			nd.Cover("pad-rejected")
+			nd.Assert(aerr != nil, "b64long/padding-before-more-data-rejected")
+			nd.Assert(berr != nil, "b64long/safe/padding-before-more-data-rejected")
+		}
+		return
+	}
+	L := 8 * nd.IntRange(0, maxL/8)
+	x := nd.Byte()
+	nd.Assume(x != '\r' && x != '\n')
+	buf := make([]byte, 0, L+16)
+	for i := 0; i < L; i += 8 {
+		buf = append(buf, 'a', 'b', 'c', 'd', '2', '3', '4', '7')
+	}
+	buf = append(buf, 'm', 'f', 'r', 'g', 'g', 'z', 'd', x)
+	buf = append(buf, 'm', 'f', 'r', 'g', 'g', 'z', 'd', 'f')
+	s := string(buf)
+	a, aerr := base32.DecodeString(s)
+	b, berr := base32.DecodeStringSafe(s)
+	nd.Assert((aerr == nil) == (berr == nil), "b32long/safe-agrees-on-acceptance")
+	if aerr == nil && berr == nil {
+		nd.Assert(bytes.Equal(a, b), "b32long/safe-agrees-on-result")
+		nd.Cover("accepted")
+	}
+	if x == '=' {
+		nd.Cover("pad-rejected")
+		nd.Assert(aerr != nil, "b32long/padding-before-more-data-rejected")
+		nd.Assert(berr != nil, "b32long/safe/padding-before-more-data-rejected")
+	}
+}
